@@ -138,3 +138,6 @@ func allTypedBimaps(r *ev.Run) int {
 	n += typedBimap(r, spell.FloatAlike, spell.AnyAlike)
 	return n
 }
+
+// ModelKey is the layout-independent state key (see seqmc.ModelKeyer).
+func (s *tb[K, V]) ModelKey() string { return fmt.Sprint(s.model, s.ku.Phase(), s.vu.Phase()) }
